@@ -303,4 +303,57 @@ theorem emitB_slot (d : Dragonfly) (x : Nat × Nat) (u : Nat) (a : DAssign) (h :
   simp only [emitB, List.mem_cons, List.not_mem_nil, or_false] at h
   rcases h with rfl | rfl <;> rfl
 
+/-! ### arithmetic -/
+
+theorem divmod_unique (M a b a' b' : Nat) (hb : b < M) (hb' : b' < M) (h : a * M + b = a' * M + b') :
+    a = a' ∧ b = b' := by
+  have hM : 0 < M := by omega
+  have e1 : (a * M + b) / M = a := by
+    rw [Nat.add_comm, Nat.add_mul_div_right _ _ hM, Nat.div_eq_of_lt hb, Nat.zero_add]
+  have e2 : (a' * M + b') / M = a' := by
+    rw [Nat.add_comm, Nat.add_mul_div_right _ _ hM, Nat.div_eq_of_lt hb', Nat.zero_add]
+  have e : a = a' := by rw [← e1, ← e2, h]
+  subst e
+  exact ⟨rfl, by omega⟩
+
+/-- the association used by the loops (`i * B * C`) versus the one of `peer` / `ridx` (`i * (C * B)`) -/
+theorem mulBC (i B C : Nat) : i * B * C = i * (C * B) := by
+  rw [Nat.mul_assoc, Nat.mul_comm B C]
+
+theorem black_unique (B C i j l i' j' l' : Nat) (hj : j < C) (hl : l < B) (hj' : j' < C) (hl' : l' < B)
+    (h : i * (C * B) + j * B + l = i' * (C * B) + j' * B + l') : i = i' ∧ j = j' ∧ l = l' := by
+  have h1 := cb_lt j l C B hj hl
+  have h2 := cb_lt j' l' C B hj' hl'
+  obtain ⟨e1, e2⟩ := divmod_unique (C * B) i (j * B + l) i' (j' * B + l') h1 h2 (by omega)
+  obtain ⟨e3, e4⟩ := divmod_unique B j l j' l' hl hl' e2
+  exact ⟨e1, e3, e4⟩
+
+/-- a router number below `G*C*B` in coordinates -/
+theorem router_decomp (d : Dragonfly) (r : Nat) (hr : r < d.nRouters) :
+    0 < d.B ∧ 0 < d.C ∧ r / (d.C * d.B) < d.G ∧ (r / d.B) % d.C < d.C ∧ r % d.B < d.B ∧ r / d.B < d.G * d.C ∧
+    r % (d.C * d.B) < d.C * d.B ∧
+    r / d.B * d.B + r % d.B = r ∧ r / (d.C * d.B) * (d.C * d.B) + r % (d.C * d.B) = r ∧
+    r / (d.C * d.B) * (d.C * d.B) + (r / d.B) % d.C * d.B + r % d.B = r := by
+  unfold Dragonfly.nRouters at hr
+  have hB : 0 < d.B := by
+    rcases Nat.eq_zero_or_pos d.B with h0 | h0
+    · rw [h0, Nat.mul_zero] at hr; omega
+    · exact h0
+  have hC : 0 < d.C := by
+    rcases Nat.eq_zero_or_pos d.C with h0 | h0
+    · rw [h0, Nat.mul_zero, Nat.zero_mul] at hr; omega
+    · exact h0
+  have hCB : 0 < d.C * d.B := Nat.mul_pos hC hB
+  have e1 : d.G * d.C * d.B = d.C * d.B * d.G := by rw [Nat.mul_assoc, Nat.mul_comm]
+  have e2 : d.G * d.C * d.B = d.B * (d.G * d.C) := Nat.mul_comm _ _
+  have e3 : r / (d.C * d.B) = r / d.B / d.C := by rw [Nat.mul_comm, Nat.div_div_eq_div_mul]
+  have e4 := Nat.div_add_mod' (r / d.B) d.C
+  have e5 := Nat.div_add_mod' r d.B
+  have e6 : r / d.B / d.C * (d.C * d.B) = r / d.B / d.C * d.C * d.B := by rw [Nat.mul_assoc]
+  have e7 : (r / d.B / d.C * d.C + r / d.B % d.C) * d.B = r / d.B / d.C * d.C * d.B + r / d.B % d.C * d.B :=
+    Nat.add_mul _ _ _
+  refine ⟨hB, hC, Nat.div_lt_of_lt_mul (by omega), Nat.mod_lt _ hC, Nat.mod_lt _ hB, Nat.div_lt_of_lt_mul (by omega),
+    Nat.mod_lt _ hCB, e5, Nat.div_add_mod' r (d.C * d.B), ?_⟩
+  rw [e3, e6, ← e7, e4, e5]
+
 end SgVerif.C26
